@@ -41,6 +41,8 @@ func propC02(c *Ctx) {
 	c.rulePositionNeedsFile("C02-POSITION-NEEDS-FILE")
 	// explicit '( )' against implicit context: the parenthesis is layout, for the core and for the scanner
 	c.ruleOpenForEveryKind("C02-OPEN-FOR-EVERY-KIND")
+	c.rulePlaceWhenComplete("C02-PLACE-WHEN-COMPLETE")
+	c.ruleLoopsCoverAll("C02-LOOPS-COVER-ALL")
 	if m := c.E1Base(); m != nil {
 		c.ruleOpenTransparent(m, "C02-OPEN-TRANSPARENT")
 	}
@@ -604,6 +606,8 @@ func propC05(c *Ctx) {
 	c.ruleExpandedTree() // path variables and tags of pasted resources exist only if the collectors read the expanded list
 	c.ruleResponseCodeGate("C05-RESPONSE-CODE-GATE")
 	c.ruleJsightFirst() // the catalog's jsight version is only ever set by a JSIGHT directive, which must be there and first
+	c.ruleLoopsCoverAll("C05-LOOPS-COVER-ALL")
+	c.ruleLoopFlags("C05-LOOP-FLAG")
 }
 
 // ruleUpdateKeepsEntry: an entry of a catalog collection accumulates its cross-references (a tag its interaction
